@@ -3,7 +3,7 @@
 records what every registered check says about each (scratch copy of /repo's modules + the patch).  A VIOLATION on
 any of them is a false alarm; exit 2 means the check could not decide the refactored shape.
 
-usage: keep_refs.py <ref_out dir> <ref_res dir>      |     keep_refs.py --recheck"""
+usage: keep_refs.py <ref_out dir> <ref_res dir> [id offset] [base commit] [round]     |     keep_refs.py --recheck"""
 import json, os, re, shutil, subprocess, sys, tempfile
 VERIF = '/verif'
 MODS = ['t2data', 't2listing', 't2thermo', 'IAPWS97', 't2incons', 'mulgrids', 't2grids', 'geometry', 'fixed_format_file']
@@ -79,12 +79,16 @@ def main():
             pool.starmap(evaluate, jobs)
         return summary()
     outdir, resdir = sys.argv[1], sys.argv[2]
+    # later rounds: number the kept ids after those of the earlier rounds (R1..R3 -> R4..R6) and record their base commit
+    offset = int(sys.argv[3]) if len(sys.argv) > 3 else 0
+    base_commit = sys.argv[4] if len(sys.argv) > 4 else '4c3df06'
+    rnd = int(sys.argv[5]) if len(sys.argv) > 5 else 1
     for pid in sorted(os.listdir(outdir)):
         for rk in sorted(os.listdir(os.path.join(outdir, pid))):
             src = os.path.join(outdir, pid, rk)
             if not os.path.isfile(os.path.join(src, 'patch.diff')): continue
-            rid = '%s_%s' % (pid, rk)
-            rp = os.path.join(resdir, rid + '.json')
+            rp = os.path.join(resdir, '%s_%s.json' % (pid, rk))
+            rid = '%s_R%d' % (pid, int(rk[1:]) + offset)
             r = json.load(open(rp)) if os.path.exists(rp) else {}
             if not r.get('confirmed'):
                 print(rid, 'dropped (equivalence not confirmed)'); continue
@@ -95,12 +99,18 @@ def main():
             notes = open(os.path.join(dst, 'notes.md')).read() if os.path.exists(os.path.join(dst, 'notes.md')) else ''
             meta = {'id': rid, 'kind': 'behaviour-preserving refactoring of code implementing ' + pid,
                     'source': 'written by an independent sub-agent given only the text of the property and a scratch git worktree',
-                    'base_commit': '4c3df06', 'what': notes.strip()[:1500],
+                    'base_commit': base_commit, 'round': rnd, 'what': notes.strip()[:1500],
                     'confirmed': {'equiv_digests_equal': r.get('equiv_same_output'), 'digest': r.get('digests'), 'tests_same_as_clean_tree': r.get('tests_same'),
                                   'tests_summary': r.get('tests_summary')},
                     'what_was_run': ['tools/ref_eval.py (fresh worktree at the base commit: equiv.py on the clean tree, git apply, equiv.py again, pinned tests)',
                                      'tools/keep_refs.py (scratch copy of the current modules + patch; every registered check with --root)']}
-            evaluate(dst, meta)
+            if os.environ.get('KEEP_REFS_NOEVAL'):
+                # (files and confirmation record only; the checks are run afterwards, in parallel, by --recheck)
+                mp_ = os.path.join(dst, 'meta.json')
+                if not os.path.exists(mp_) or not json.load(open(mp_)).get('checks'):
+                    meta.update(checks={}, false_alarm=None, undecided=None)
+                    json.dump(meta, open(mp_, 'w'), indent=1)
+            else: evaluate(dst, meta)
     summary()
 
 
